@@ -362,6 +362,13 @@ def transform_item(t: Txt, opts, subs, log, label):
                 rep = m.expand(new)
                 t.splice(m.start(), m.end(), Txt(rep, [t.o[m.start()]] * len(rep)))
                 log.append({'rule': rule, 'item': label, 'before': m.group(0), 'after': rep, 'count': 1})
+    # R8 (automatic): closure parameter `|_|` -> `|_e|` (Verus accepts only identifier patterns; naming only)
+    mask0 = rust_mask(t.s)
+    hits = [m.start() for m in re.finditer(r'\|_\|', mask0)]
+    for a in reversed(hits):
+        t.splice(a, a + 3, Txt('|_e|', [t.o[a]] * 4))
+    if hits:
+        log.append({'rule': 'R8', 'item': label, 'before': '|_|', 'after': '|_e|', 'count': len(hits)})
     mask = rust_mask(t.s)
     inserts = []   # (offset, Txt, order)
     def ins(off, sb, pre='', post='\n'):
